@@ -951,6 +951,16 @@ func checkQueries(t fataler, fc *fontCase, f *sfnt.Font, which string, boxes []b
 	if !nearRect(fboxPDF, unionPDF) {
 		fail("FontBBoxPDF() = %v, the union of the glyph boxes is %v", fboxPDF, unionPDF)
 	}
+	if co, ok := f.Outlines.(*cff.Outlines); ok {
+		// the outlines' own font box query
+		var ob funit.Rect16
+		if pn := guard.Try(func() { ob = co.BBox() }); pn != nil {
+			fail("cff.Outlines.BBox panicked: %s", pn)
+		}
+		if got := (box4{int(ob.LLx), int(ob.LLy), int(ob.URx), int(ob.URy)}); got != fontBox {
+			fail("cff.Outlines.BBox() = %v, the union of the non-empty glyph boxes is %v", got, fontBox)
+		}
+	}
 	if fc.kind == "glyf" {
 		// the font matrix of a TrueType font is the caller's to set (synthetic
 		// oblique, rotation): the font box is the union of the glyph boxes
